@@ -10,7 +10,7 @@
 (* histories that break them.                                              *)
 (***************************************************************************)
 EXTENDS Interp, Json
-CONSTANTS ModelSet, MaxCalls
+CONSTANTS ModelSet, MaxCalls, Rich
 VARIABLES mid, fresh,      \* which model of the family; the tensors created since the last call (the next call passes them all)
           touched,         \* the caller tensor refilled since the last call (0: none): the next call passes it
           stale            \* results of calls that read a buffer refilled since: the code may hand an operand back as a result (Concat of
@@ -156,12 +156,13 @@ MCInit == Init /\ mid \in ModelSet /\ fresh = {} /\ touched = 0 /\ stale = {}
 DoLoad == ~model.loaded /\ Load(G) /\ UNCHANGED <<mid, fresh, touched, stale>>
 \* new caller tensors: one for each declared input before the first call (in declaration order), at most one before a later call
 DoNew == /\ model.loaded /\ runs[1].st = "idle" /\ Len(hist) < MaxCalls
-         /\ Cardinality(fresh) < (IF hist = <<>> THEN Len(G.inputs) ELSE 1)
-         /\ \E i \in 1..Len(G.inputs) : (hist = <<>> => i > Cardinality(fresh)) /\ \E t \in Candidates(G, G.inputs[i].name) : NewInput(t)
+         \* (Rich = FALSE: the smaller space used for 3-call histories over all models - one new tensor per call, no refills)
+         /\ Cardinality(fresh) < (IF Rich /\ hist = <<>> THEN Len(G.inputs) ELSE 1)
+         /\ \E i \in 1..Len(G.inputs) : (Rich /\ hist = <<>> => i > Cardinality(fresh)) /\ \E t \in Candidates(G, G.inputs[i].name) : NewInput(t)
          /\ fresh' = fresh \cup {Len(heap) + 1} /\ UNCHANGED <<mid, touched, stale>>
 \* between two calls the caller refills, in place, a tensor it passed to an earlier call (the buffer of the next inference)
 Refilled(t) == [t EXCEPT !.data = [k \in 1..Len(t.data) |-> 5 - 2 * t.data[k]]]
-DoRefill == /\ model.loaded /\ runs[1].st = "idle" /\ touched = 0 /\ Len(hist) >= 1 /\ Len(hist) < MaxCalls
+DoRefill == /\ Rich /\ model.loaded /\ runs[1].st = "idle" /\ touched = 0 /\ Len(hist) >= 1 /\ Len(hist) < MaxCalls
             /\ \E o \in 1..Len(heap) :
                   /\ heap[o].owner = "caller" /\ (\A k \in 1..Len(heap[o].t.data) : heap[o].t.data[k] \in Int)
                   /\ (\E j \in 1..Len(hist) : \E n \in DOMAIN hist[j].ins : hist[j].ins[n] = o)
